@@ -60,7 +60,7 @@ pub fn step(data: &[u8]) -> Result<(), String> {
         };
     }
     let avoid: Vec<u32> = er.to_vec();
-    let case = StepCase { code: data[..10].to_vec(), pc: e.code_addr(12, &avoid), er, ccr: e.u8(), patches: vec![], bus: e.bus_cfg(), irq: None };
+    let case = StepCase { code: data[..10].to_vec(), pc: e.code_addr(12, &avoid), er, ccr: e.u8(), patches: vec![], bus: e.bus_cfg(), irq: None, primer: None };
     with_emu(|emu| {
         let j = judge(emu, &case, &Aspects::STATE, &open_quirks_all());
         match j.verdict {
